@@ -246,7 +246,7 @@ func init() {
 		renderPrelude()
 		e.perShard = 80
 		e.rep.Rule = "expression trees over the pool {0,1,2,7,maxint,1.5,0.25,\"\",\"a\",\"b\",\"10\",\"^a\",true,false,nil, int/float/string/negative variables, floats printed with an exponent, integers beyond 2^53 that differ by one}: every tree of depth 1 (all operator x operand pairs, and ! of each) exhaustively, random trees to depth 5; each printed with minimal, full and random-redundant parentheses; judged against a Go reference evaluator written from the documented meaning (precedence ! > * / > + - > comparisons > == != ~= > && ||, left associativity, short circuit, wrap-around ints, truncating division, errors for division by zero and type mismatches); combinations the documentation leaves open (bool+bool, string vs non-string comparison, bool vs non-bool) are excluded by name; non-trivial = reference value defined; distinct by printed expression"
-		binds := []Bind{{"vi", vInt(3)}, {"vneg", vInt(-4)}, {"vfl", vFloat("2.5")}, {"vs", vStr("str")}, {"vmin", vInt(math.MinInt)}, {"vmaxm", vInt(math.MaxInt - 1)}, {"vbig", vFloat("2500000.0")}, {"vtiny", vFloat("0.000025")}}
+		binds := []Bind{{"vi", vInt(3)}, {"vneg", vInt(-4)}, {"vfl", vFloat("2.5")}, {"vs", vStr("str")}, {"vmin", vInt(math.MinInt)}, {"vmaxm", vInt(math.MaxInt - 1)}, {"vbig", vFloat("2500000.0")}, {"vtiny", vFloat("0.000025")}, {"vhuge", vFloat("1e200")}, {"vsmall", vFloat("1e-200")}}
 		leaves := []*xnode{
 			{leaf: "0", val: 0}, {leaf: "1", val: 1}, {leaf: "2", val: 2}, {leaf: "7", val: 7}, {leaf: "9223372036854775807", val: math.MaxInt},
 			{leaf: "1.5", val: 1.5}, {leaf: "0.25", val: 0.25}, {leaf: `""`, val: ""}, {leaf: `"a"`, val: "a"}, {leaf: `"b"`, val: "b"}, {leaf: `"10"`, val: "10"}, {leaf: `"^a"`, val: "^a"},
@@ -310,7 +310,7 @@ func init() {
 		// arithmetic, comparison and equality operators, in both nestings: chains of one operator whose
 		// head is a string VARIABLE included (s + 1 + 2 appends 1 then 2)
 		{
-			pool2 := []*xnode{{leaf: "vs", val: "str"}, {leaf: `"a"`, val: "a"}, {leaf: "1", val: 1}, {leaf: "2", val: 2}, {leaf: "vi", val: 3}, {leaf: "1.5", val: 1.5}}
+			pool2 := []*xnode{{leaf: "vs", val: "str"}, {leaf: `"a"`, val: "a"}, {leaf: "1", val: 1}, {leaf: "2", val: 2}, {leaf: "vi", val: 3}, {leaf: "1.5", val: 1.5}, {leaf: "0.0", val: 0.0}, {leaf: "0", val: 0}}
 			ops2 := []string{"+", "-", "*", "/", "<", "=="}
 			judge2 := func(n *xnode) {
 				v, class := refRun(n)
@@ -349,6 +349,26 @@ func init() {
 							}
 						}
 					}
+				}
+			}
+		}
+		// float division: a zero divisor is an error whatever the dividend; a quotient that overflows is +Inf, not an error
+		{
+			hg, sm, z, one := &xnode{leaf: "vhuge", val: 1e200}, &xnode{leaf: "vsmall", val: 1e-200}, &xnode{leaf: "0.0", val: 0.0}, &xnode{leaf: "1.5", val: 1.5}
+			for _, n := range []*xnode{{op: "/", l: hg, r: sm}, {op: "/", l: z, r: z}, {op: "/", l: &xnode{op: "-", l: one, r: one}, r: z}, {op: "/", l: sm, r: hg}, {op: "*", l: hg, r: hg},
+				{op: "/", l: one, r: &xnode{op: "-", l: one, r: one}}, {op: "+", l: &xnode{leaf: `"q="`, val: "q="}, r: &xnode{op: "/", l: z, r: z}}, {op: "/", l: &xnode{op: "*", l: z, r: hg}, r: &xnode{op: "*", l: z, r: sm}}} {
+				v, class := refRun(n)
+				src := n.print(0, e.Rng)
+				o := runRender(RCase{Tmpl: "<%= " + src + " %>", Binds: binds})
+				e.rep.Evaluations++
+				e.Count("render-float-extremes")
+				rp := map[string]interface{}{"expr": src, "observed": o, "reference": fmt.Sprint(v), "reference_class": class}
+				if class == "ERR" {
+					if o.Class != "ERR" {
+						e.Violate("c06-ref", fmt.Sprintf("%s: documented to be an error, rendered %q (%s)", src, o.Out, o.Class), rp)
+					}
+				} else if class != "UNSPEC" && (o.Class != "OK" || o.Out != template.HTMLEscapeString(fmt.Sprint(v))) {
+					e.Violate("c06-ref", fmt.Sprintf("%s: rendered %q (%s %s), reference value %q", src, o.Out, o.Class, firstLine(o.Msg), fmt.Sprint(v)), rp)
 				}
 			}
 		}
